@@ -64,6 +64,8 @@ MAP = [
  ("swapping a cell with a position outside the layer", "C08", "swap_char((0,0),(12,2)) on a 12x8 layer; undo - cell (0,0) stays erased"),
  ("make-transparent and stamp-down record an unclamped", "C08", "clear_layer(1) on a 2-layer document; make_layer_transparent(); undo fails with 'Layer 2 is invalid'"),
  ("undo of row and column insert/delete panics", "C08", "merge_layer_down(2); justify_line_left(); delete_column(); set_palette_mode(RGB); undo/redo walk panics in DeleteColumn::undo (index out of bounds)"),
+ ("cursor up with a scroll region scrolls once per requested line", "C03", "ESC[2;24r ESC[2147483647A (13-byte CUU/VPB with top/bottom margins): 2^31 region scrolls"),
+ ("cursor up in a file buffer leaves the caret on a negative row", "C02", "ANSI file 'ESC[4h ESC[2k 2': caret row -2 in a non-terminal buffer, print_char panics (capacity overflow)"),
 ]
 
 def main():
